@@ -1,4 +1,7 @@
 import ZnVerif.Properties.C03Chars
+import ZnVerif.Properties.C03Layouts
+import ZnVerif.Properties.C03LayoutsExample
+import ZnVerif.Properties.C03LiteralExample
 open ZnVerif.Properties.C03
 -- character level: lexer model + parser model on a canonical text rendering (Properties/C03Chars.lean)
 #print axioms lex_rendered
@@ -12,7 +15,29 @@ open ZnVerif.Properties.C03
 #print axioms CharsExample.exProgram_rendered
 -- the pieces: one token of the rendering, the lexer along the rendering, the parser along a run of the lexer
 #print axioms ZnVerif.Proofs.RenderLex.dispatch_item
-#print axioms ZnVerif.Proofs.RenderLex.skipBlank_break
-#print axioms ZnVerif.Proofs.RenderLex.step_ok
 #print axioms ZnVerif.Proofs.LexSim.parseAST_run
 #print axioms ZnVerif.Proofs.LexSim.run_inOrder
+-- free layout (Properties/C03Layouts.lean): blanks, touching tokens, blank lines, LF / CR / CRLF / LFCR, TAB or four-space indentation
+#print axioms lex_rendered_doc
+#print axioms doc_in_order
+#print axioms parse_doc_is_laid_out
+#print axioms parse_render_doc
+#print axioms parse_render_doc_plain
+#print axioms doc_text_unambiguous
+#print axioms canonical_is_doc
+#print axioms LayoutExample.frText_rendered
+#print axioms LayoutExample.frEls_wf
+#print axioms LayoutExample.frTokens_eq
+#print axioms LayoutExample.frProgram_rendered
+#print axioms ZnVerif.Proofs.RenderLex.dispatch_item_ends
+#print axioms ZnVerif.Proofs.RenderLex.dispatch_cmt
+#print axioms ZnVerif.Proofs.RenderLex.nextToken_lit
+#print axioms ZnVerif.Proofs.RenderLex.gstepOK_lit
+#print axioms ZnVerif.Proofs.LexSim.run_inOrder_clean
+#print axioms ZnVerif.Proofs.RenderLex.skipBlank_ws
+#print axioms ZnVerif.Proofs.RenderLex.skipBlank_brk
+#print axioms ZnVerif.Proofs.RenderLex.gstep_ok
+#print axioms ZnVerif.Proofs.RenderLex.docWF_of_WF
+#print axioms LiteralExample.mlEls_wf
+#print axioms LiteralExample.mlTokens_eq
+#print axioms LiteralExample.mlProgram_rendered
